@@ -745,6 +745,28 @@ pub mod verif_hooks {
         }
     }
 
+    /// Puts the receiver into the state "message partially buffered" (representation invariant:
+    /// `remaining` is the total length of the buffered chunks).
+    pub fn receiver_set_receiving_data(r: &mut Receiver, chunks: Vec<Bytes>) {
+        let remaining = chunks.iter().map(|c| c.len()).sum();
+        r.receiving = Receiving::Data(DataBuf { bufs: chunks.into(), remaining });
+    }
+
+    /// Puts the receiver into the state "message is being streamed chunk by chunk".
+    pub fn receiver_set_receiving_chunks(r: &mut Receiver, chunks: Vec<Bytes>, completed: bool) {
+        r.receiving = Receiving::Chunks { chunks: chunks.into(), completed };
+    }
+
+    /// `remaining` counter of a data buffer (as reported through the `Buf` API).
+    pub fn data_buf_remaining(d: &DataBuf) -> usize {
+        d.remaining
+    }
+
+    /// Number of chunks held by a data buffer.
+    pub fn data_buf_parts(d: &DataBuf) -> usize {
+        d.bufs.len()
+    }
+
     /// (closed, finished)
     pub fn receiver_flags(r: &Receiver) -> (bool, bool) {
         (r.closed, r.finished)
